@@ -1024,7 +1024,7 @@ def run(P, rep, tier):
                        'plus the header mapping: the macros of include/stdatomic.h are evaluated under interference schedules, untyped on a 64-bit object (R16.5) and with C types on objects of every integer width and signedness, where the compare-exchange builtin refreshes exactly sizeof(object) bytes of the expected-value object (R16.8). '
                        'float/double atomic objects are covered by R16.1 (rewrite) and R16.3/R16.4 (bit patterns moved between %xmm0 and the general register the instruction uses). '
                        'R16.8 evaluates every macro twice: with the object designated through a pointer to the _Atomic-qualified type (op= on *(obj) is then the indivisible rewrite of R16.1) and through a pointer to the unqualified type (op= is a plain load/modify/store there; only the builtins are indivisible). '
-                       'R16.9: every atomic_* typedef of C11 7.17.6 carries _Atomic on the paired direct type. R16.10: struct/union objects are either rejected by add_type or the instruction works on the bytes of the operands, not on the addresses aggregates are evaluated to. R16.12: a store to an atomic object of 1/2/4/8 bytes (scalar, struct, union) is one store instruction of the object width. R16.11: the qualifier survives type derivation - the type constructors, add_type on every lvalue shape, typeof / typedef names / pointer declarators (declspec and declarator interpreted on token sequences with an atomic type in scope), and no assignment clears is_atomic. Linearizability under interleavings is a property of schedules and is not decided.')
+                       'R16.9: every atomic_* typedef of C11 7.17.6 carries _Atomic on the paired direct type. R16.10: struct/union objects are either rejected by add_type or the instruction works on the bytes of the operands, not on the addresses aggregates are evaluated to. R16.12: a store to an atomic object of 1/2/4/8 bytes (scalar, struct, union) is one store instruction of the object width. R16.11: the qualifier survives type derivation - the type constructors, add_type on every lvalue shape, typeof / typedef names / pointer declarators (declspec and declarator interpreted on token sequences with an atomic type in scope), and no assignment clears is_atomic. R16.13/R16.15: the trees unary()/postfix()/to_assign() build for ++, -- and op= on an atomic object of every scalar type are run by a reference evaluator of the node language in which another thread overwrites the object before any access of this thread (finite set of schedules x boundary values): exactly one successful compare-exchange writes the object, it installs conv_T(h op k) for the value h it replaced, postfix forms yield h itself, the others the installed value, and the loop ends with the interference. R16.14: the bytes a bit-field store rewrites (layout of struct_decl on a catalogue of member sequences x store width of gen_expr) contain no byte of another memory location (C11 3.14) - a plain read-modify-write of a unit that also holds an _Atomic member undoes the indivisible updates of that member. Linearizability under arbitrary interleavings is a property of schedules and is decided only for the finite schedule set of R16.13/R16.15.')
     rep.assumptions += ['x86-64: `lock cmpxchg` and `xchg` with a memory operand are indivisible (Intel SDM vol. 3 ch. 8)', 'children satisfy the register convention (induction)']
     r163(cg, rep)
     r1610(P, cg, rep)
@@ -1041,6 +1041,23 @@ def run(P, rep, tier):
     from ..lib_types import r_atomic_builtin_operands
     rep.rule('R16.7', 'add_type converts the value operand of the exchange / compare-and-swap builtins to the type of the atomic object for every arithmetic operand type and gives the exchange the object\'s type: the value the indivisible instruction stores is the converted operand (a floating operand left unconverted is never moved into the register the instruction uses)', floor=200)
     r_atomic_builtin_operands(P, rep, 'R16.7')
+    r1613(P, rep, tier)
+    r1614(P, cg, rep)
+
+
+def r1614(P, cg, rep):
+    from ..lib_c16_bf import r_bitfield_store_unit
+    rep.rule('R16.14', 'a store to a bit-field rewrites only bytes of its own memory location (C11 3.14: a maximal run of adjacent non-zero-width bit-fields): the bytes [offset, offset + width of the store instruction gen_expr emits for the declared type) of the plain load/merge/store contain no byte of another member - in particular of an _Atomic member, whose indivisible updates the store would undo; decided on the offsets struct_decl assigns to a catalogue of member sequences (bit-field before / after / between narrower and wider members, packed, zero-width separators)', floor=12)
+    r_bitfield_store_unit(P, cg, rep, 'R16.14')
+
+
+def r1613(P, rep, tier='quick'):
+    from ..lib_c16_incdec import r_incdec_atomic
+    rep.rule('R16.13', 'the trees unary() / postfix() build for ++ and -- on an _Atomic object (variable, dereference, member; _Bool, every integer type, enum, pointer, float, double), run by a reference evaluator in which another thread overwrites the object between any two accesses of this thread: the object is written only by exactly one successful compare-exchange, which replaces the value h it finds by conv_T(h +/- 1); the postfix expression yields h itself (never a value recomputed from the new one: the conversion to _Bool and floating rounding cannot be undone), the prefix expression the installed value; the retry loop ends when the interference does', floor=120)
+    r_incdec_atomic(P, rep, 'R16.13', tier)
+    from ..lib_c16_incdec import r_compound_atomic
+    rep.rule('R16.15', 'the tree to_assign() builds for `A op= B` (all ten operators) on an _Atomic object of every scalar type, run by the same reference evaluator under interference: the object is written only by exactly one successful compare-exchange, which replaces the value h it finds by conv_T((C)h op (C)b), C the common type (pointer: h +/- b elements), and the expression yields exactly that installed value; the retry loop ends when the interference does', floor=90)
+    r_compound_atomic(P, rep, 'R16.15', tier)
 
 
 def r_atomic_operand_type(P, rep, rule):
